@@ -72,9 +72,27 @@ func TestDrv_C15(t *testing.T) {
 				tgts[i-1] = tg
 			}
 			for _, callers := range callerss {
-				for _, kind := range []string{"http", "json", "static"} {
+				for _, kind := range []string{"http", "json", "static", "jsonfile", "httpfile"} {
 					var tgr vegeta.Targeter
 					switch kind {
+					case "jsonfile", "httpfile": // the source is a file, as in the command (an io.Closer, unlike a reader in memory)
+						if n > 400 && kind == "httpfile" {
+							continue
+						}
+						doc := jsonDoc.Bytes()
+						if kind == "httpfile" {
+							doc = httpDoc.Bytes()
+						}
+						p := filepath.Join(dir, fmt.Sprintf("c15_%d_%d_%d.%s", round, n, callers, kind))
+						must(os.WriteFile(p, doc, 0o644))
+						f, err := os.Open(p)
+						must(err)
+						defer f.Close()
+						if kind == "jsonfile" {
+							tgr = vegeta.NewJSONTargeter(f, nil, nil)
+						} else {
+							tgr = vegeta.NewHTTPTargeter(f, nil, nil)
+						}
 					case "http":
 						if n > 400 {
 							continue // body files only exist for the first 400 targets
@@ -98,7 +116,7 @@ func TestDrv_C15(t *testing.T) {
 							for k := 0; ; k++ {
 								var fresh vegeta.Target
 								tg := &fresh
-								if g%2 == 1 && kind != "json" {
+								if g%2 == 1 && kind != "json" && kind != "jsonfile" {
 									// every other caller keeps one variable for all its draws, the ordinary
 									// `var t Target; for tr(&t) == nil` loop (the JSON format documents merging into it)
 									tg = &slot
